@@ -10,6 +10,7 @@ using namespace Qentem;
 using Str = String<char>;
 
 // ---------------- key universes ------------------------------------------
+static SizeT g_maxslots = 1000;
 static std::vector<std::string> g_keys;  // id-1 -> bytes, sorted by unsigned lexicographic order
 
 static bool lex_less(const std::string &a, const std::string &b) {
@@ -110,6 +111,7 @@ template <typename Table, typename V, bool IsList>
 struct HModel {
     Table tb[2];
 
+    bool beyond_bound() const { return tb[0].Size() > g_maxslots || tb[1].Size() > g_maxslots; }
     void reset() {
         tb[0].Reset();
         tb[1].Reset();
@@ -349,6 +351,7 @@ int main(int argc, char **argv) {
         if (!g.load(argv[2])) return 2;
         int    variant = atoi(argv[3]);
         size_t nkeys   = (size_t)atoi(argv[4]);
+        if (argc >= 6) g_maxslots = (SizeT)atoi(argv[5]);
         make_keys(variant, nkeys, 5);
         std::string tag = std::string("v") + argv[3];
         printf("KEYS %s", tag.c_str());
